@@ -201,6 +201,27 @@ def r5(ctx, prog):
     ctx.floor(R, 3)
 
 
+def r6(ctx, prog):
+    R = ctx.rule("C18.R6", "an arena's purge expiry is armed only from 0 when purges are scheduled (never pushed later): the global expiry is armed on exactly that transition, so a later arena "
+                           "expiry would outlive the global one, which is then reset with work still pending")
+    f = prog.fn("mi_arena_schedule_purge")
+    cas = [e for e in f.all(kind="AtomicExpr") if f.nodes[e]["aop"].startswith("cas") and f.mentions_field(f.nodes[e]["ptr"], "purge_expire")]
+    st = [e for e in f.all(kind="AtomicExpr") if f.nodes[e]["aop"] in ("store", "exchange", "fetch_add") and f.mentions_field(f.nodes[e]["ptr"], "purge_expire")]
+    ctx.check(R, len(cas) >= 1 and not st, f.where(), "the arena expiry is changed only by CAS here", key="C18.R6:shape")
+    import C02
+    for e in cas:
+        ev = C02.expected_var(f, e)
+        defs = rl.reaching_defs(f, ev, e) if ev is not None else []
+        ok = bool(defs) and all(rhs is not None and f.cv(rhs) == 0 for a, rhs, op in defs)
+        ctx.check(R, ok, f.where(e), "CAS on arena->purge_expire expects 0 (arming), it never replaces a pending expiry", key="C18.R6:from_zero")
+        # and its success edge arms the global expiry
+        succ = [q for p, q, x, pol in rl.edges_with_fact(f, lambda x, pol: isinstance(x, int) and pol and e in set(f.walk(x)))]
+        glob = lambda y: f.nodes[y]["k"] == "AtomicExpr" and f.nodes[y]["aop"].startswith("cas") and "mi_arenas_purge_expire" in f.text(f.nodes[y]["ptr"])
+        okg = bool(succ) and all(f.cfg.must_pass([q], f.cfg.exit_points(), glob) is None for q in succ)
+        ctx.check(R, okg, f.where(e), "arming an arena arms the global expiry on every path", key="C18.R6:global")
+    ctx.floor(R, 3)
+
+
 def run(ctx):
     ctx.explanation = ("Static decision of C18's code-shaped necessary conditions: orientation agreement of the expiry tests of the three purge "
                        "drivers (edge-fact analysis over their CFGs), reachability of force=false purge attempts from ordinary free/alloc/collect "
@@ -209,7 +230,7 @@ def run(ctx):
     for c in (["REL"] if ctx.tier == "quick" else ["REL", "SEC", "DBG"]):
         prog = ctx.prog(c)
         n0 = len(ctx.instances)
-        r1(ctx, prog); r2(ctx, prog); r3(ctx, prog); r4(ctx, prog); r5(ctx, prog)
+        r1(ctx, prog); r2(ctx, prog); r3(ctx, prog); r4(ctx, prog); r5(ctx, prog); r6(ctx, prog)
         if c != "REL":
             for i in ctx.instances[n0:]:
                 i["site"] += " [%s]" % c
